@@ -294,3 +294,60 @@ Section SkipProofs.
     rewrite Ri, Ro, Ei, Eo'. reflexivity.
   Qed.
 End SkipProofs.
+
+(* ---------- the full statement is false today (D2), also at the level of the skip decision ----------
+   Same step, same output paths a and b, SHA-256 replaced by the identity (no collision at all).
+   Recorded: a missing, b present with content digest X.  Now: a present with content digest D,
+   b missing.  D = "u" followed by the words that follow an unknown digest in the recorded
+   pre-image, X ends with the words of a last entry whose digest is unknown: both pre-images are
+   the same bytes, try_skip_job says "unchanged". *)
+Definition d2s_X : str := [88;88;88;88;88;88; 0;1;98; 0;0; 0;0;0;0;0;0;0;0; 0;0; 0;0;0;0;0;0;0;0; 0;0; 117].
+Definition d2s_D : str := [117; 0;1;98; 0;0; 0;0;0;0;0;0;129;164; 0;0; 0;0;0;0;0;0;0;5; 0;0; 88;88;88;88;88;88].
+Definition d2s_sys : syscfg := mk_sys [99;109;100] [46] false [] [] [] [] [] [].
+Definition d2s_id : str -> str := fun x => x.
+Definition d2s_disk0 : disk :=
+  fun p => if str_eqb p [98] then DFile (mk_fstat 33188 7 5 11) d2s_X else DMissing.
+Definition d2s_disk1 : disk :=
+  fun p => if str_eqb p [97] then DFile (mk_fstat 0 9 0 12) d2s_D else DMissing.
+Definition d2s_oo0 : list (str * fhash) := [ ([97], fh_unknown); ([98], fh_unknown) ].
+Definition d2s_oo1 : list (str * fhash) := [ ([97], fh_unknown); ([98], mk_fhash d2s_X 33188 7 5 11) ].
+
+Definition skip_counterexample : Prop :=
+  exists (H : str -> str) (s0 : syscfg) (d0 : disk) (io0 oo0 : list (str * fhash)) (rec : shash) (rs : syscfg)
+         (s : syscfg) (d : disk) (io oo : list (str * fhash)) (h : shash) (inps outs : list (str * fsig)),
+    full_step_hash H s0 d0 io0 oo0 = Some (rec, rs)
+    /\ try_skip H rec s d io oo = Some (true, h)
+    /\ observed_inps H d io = Some inps /\ observed_outs H d oo = Some outs
+    /\ sys_wf rs = true /\ sys_wf (with_outs (with_inps s inps) outs) = true
+    /\ wf_files (sys_outs rs) = true /\ wf_files outs = true
+    /\ no_collision H (inp_preimage (site_inp_cfg rs)) (inp_preimage (site_inp_cfg (with_outs (with_inps s inps) outs)))
+    /\ no_collision H (out_preimage (sys_outs rs)) (out_preimage outs)
+    /\ ~ Permutation (sys_outs rs) outs.
+
+Theorem skip_full_refuted : unknown_as_none = false -> skip_counterexample.
+Proof.
+  intros Hshape.
+  first
+    [ solve [vm_compute in Hshape; discriminate Hshape]
+    | destruct (full_step_hash d2s_id d2s_sys d2s_disk0 [] d2s_oo0) as [[rec rs]|] eqn:F;
+      [|vm_compute in F; discriminate F];
+      destruct (try_skip d2s_id rec d2s_sys d2s_disk1 [] d2s_oo1) as [[b h]|] eqn:T;
+      [|vm_compute in F; injection F as <- <-; vm_compute in T; discriminate T];
+      destruct (observed_outs d2s_id d2s_disk1 d2s_oo1) as [outs|] eqn:O;
+      [|vm_compute in O; discriminate O];
+      exists d2s_id, d2s_sys, d2s_disk0, [], d2s_oo0, rec, rs, d2s_sys, d2s_disk1, [], d2s_oo1, h, [], outs;
+      vm_compute in F; injection F as <- <-; vm_compute in O; injection O as <-;
+      vm_compute in T; injection T as <- <-;
+      repeat (split; [first [reflexivity | vm_compute; reflexivity | intros E; exact E]|]);
+      intros P; apply (Permutation_in ([97], mk_fsig [117] 0 0)) in P; [|left; reflexivity];
+      cbn in P; destruct P as [P|[P|[]]]; discriminate P ].
+Qed.
+
+Theorem skip_full_is_false : unknown_as_none = false -> ~ skip_full.
+Proof.
+  intros Hshape Full. destruct (skip_full_refuted Hshape) as
+    [H [s0 [d0 [io0 [oo0 [rec [rs [s [d [io [oo [h [inps [outs
+      [F [T [Oi [Oo [Wr [Wn [Wor [Won [Ci [Co NP]]]]]]]]]]]]]]]]]]]]]]]].
+  destruct (Full H s0 d0 io0 oo0 rec rs F s d io oo h T inps outs Oi Oo Wr Wn Wor Won Ci Co) as [_ E].
+  apply NP. exact E.
+Qed.
